@@ -245,8 +245,12 @@ func checkShards(t *testing.T, c ShardsCase) (v harness.Verdict) {
 
 	var opts []ctfe.CertValidationOpts
 	if why == "" {
+		pool, _ := trustFor(c.Chain, secsOf(c.Probes))
+		if c.Chain.Lone {
+			v.Class("chain:lone-root")
+		}
 		for i, w := range sh {
-			o, err := windowOpts(w, Policy{})
+			o, err := windowOpts(w, Policy{}, pool)
 			if err != nil {
 				v.Failf("ctfe-valid-window-refused", "ValidateLogConfig refuses the window of shard %d %v: %v", i, w, err)
 				return v
